@@ -13,7 +13,29 @@ SUFFIX = re.compile(r'__\d+\b')
 
 
 def _declares_ignore(level):
-    return [it['expr'] for it in level['items'] if it['k'] == 'ignore' or (it['k'] == 'rule' and it.get('ignore'))]
+    """Ignore declarations of one level: ('anon', expr) or ('named', rule name)."""
+    out = []
+    for it in level['items']:
+        if it['k'] == 'ignore':
+            out.append(('anon', it['expr']))
+        elif it['k'] == 'rule' and it.get('ignore'):
+            out.append(('named', it['name']))
+    return out
+
+
+def _resolver(levels):
+    """A named ignore rule is a rule like any other: the synthetic ignore rule refers to it by
+    name, late-bound, so through module i it denotes the most-derived definition of that name
+    (whether or not the overriding definition repeats the `ignore` modifier)."""
+    top = {}
+    for lv in levels:
+        for it in lv['items']:
+            if it['k'] == 'rule' and not it.get('params'):
+                top[it['name']] = it['expr']
+
+    def resolve(decl):
+        return decl[1] if decl[0] == 'anon' else top[decl[1]]
+    return resolve
 
 
 def flatten(levels, i, reading='late'):
@@ -27,7 +49,16 @@ def flatten(levels, i, reading='late'):
         for it in lv['items']:
             if it['k'] in ('rule', 'class') and not it.get('ignore'):
                 defs.setdefault(it['name'], []).append(j)
-    pats = [_declares_ignore(lv) for lv in levels]
+    resolve = _resolver(levels)
+    pats = []
+    for lv in levels:
+        seen, ps = [], []
+        for d in _declares_ignore(lv):
+            e = resolve(d)
+            if e not in seen:
+                seen.append(e)
+                ps.append(e)
+        pats.append(ps)
     ig_levels = [j for j, p in enumerate(pats) if p]
 
     # When the root itself declares ignore patterns, every literal of the chain is in force and (late
@@ -109,7 +140,11 @@ def flatten(levels, i, reading='late'):
                 items.append({'k': 'class', 'name': '%s__%d' % (it['name'], j), 'fields': fields})
     if ig_levels:
         if reading == 'late':
-            allp = [p for j in ig_levels for p in pats[j]]
+            allp = []
+            for j in ig_levels:
+                for p in pats[j]:
+                    if p not in allp:
+                        allp.append(p)
             items.append({'k': 'rule', 'name': 'Ig', 'expr': ['skip'] + allp})
             if native:
                 for p in allp:
